@@ -156,7 +156,7 @@ pub fn run(thorough: bool) {
             probes: vec![Arc::new(TravelProbe)],
             pools: vec![1],
             time_budget_s: if thorough { 1500 } else { 25 },
-            max_states: if thorough { 100_000 } else { 3_000 },
+            max_states: if thorough { 100_000 } else { 8_000 },
             stop_on_violation: true,
         });
     }
